@@ -20,5 +20,5 @@ def build(src, tier):
     from contracts import queues as Q
     wm = base_world(src)
     Q.install(wm)
-    out += [(wm, I.marker_targets())]
+    out += [(wm, I.marker_targets() + [I.t_clear('clear_spy')])]
     return out
